@@ -92,7 +92,7 @@ theorem written_length (e : WEntry) (tgt : Option Bytes) (xs : List (Bytes × By
   unfold readHeader readHeaderWith at hrt
   rw [readHeaderLoop] at hrt
   rw [if_pos (by omega)] at hrt
-  cases hrt
+  split at hrt <;> cases hrt
 
 theorem entryBytes_some (img : ImgData) (n : TNode) (c : Nat) (h : NodeOK img n) :
     ∃ hd, writeTarHeader (wentryOf img n) n.target (xsOf img n) c = some hd ∧ 512 ≤ hd.length ∧
